@@ -184,3 +184,13 @@ func (rw *RemoteWrapper) Exists(ctx context.Context, path string, key string) (b
 	// Check if the file exists in the remote cache
 	return rw.remote.Exists(ctx, path, key)
 }
+
+// ExistsInAllStores checks if a file exists in both the local file system cache and the remote cache,
+// i.e. whether writing it again (Set writes to both) would be redundant.
+func (rw *RemoteWrapper) ExistsInAllStores(ctx context.Context, path string, key string) (bool, error) {
+	localExists, err := rw.fs.Exists(ctx, path, key)
+	if err != nil || !localExists {
+		return false, err
+	}
+	return rw.remote.Exists(ctx, path, key)
+}
